@@ -172,14 +172,12 @@ theorem wf_newCharacterClass (a b : List Nat) (ha : ∀ x ∈ a, Scalar x) (hb :
     · exact hb x h
 
 /-- the code points `extract_character_set` takes from a single-code-point expression -/
-theorem extractCharSet_single (cap : Bool) (e : Expr) (h : WF e) (hs : e.isSingleCodepoint (cfgPlain cap) = true) :
+theorem extractCharSet_single (cap esc : Bool) (e : Expr) (h : WF e) (hs : e.isSingleCodepoint (cfgPlain cap esc) = true) :
     extractCharSet e ≠ [] ∧ (∀ x ∈ extractCharSet e, Scalar x) ∧ (extractCharSet e).Pairwise (· < ·) := by
   cases e with
   | cls cs => exact ⟨h.1, h.2.1, h.2.2⟩
   | lit c =>
-    simp only [isSingleCodepoint, cfgPlain, Bool.and_eq_true, beq_iff_eq] at hs
-    have hlen : (flat c).length = 1 := by rw [← charCount_flat]; exact hs.1
-    obtain ⟨x, rfl, _, hsc⟩ := single_literal c h hlen
+    obtain ⟨x, rfl, _, hsc⟩ := single_literal_cfg cap esc c h hs
     simp only [extractCharSet, List.head?_cons, value_ofStr]
     exact ⟨by simp, by intro y hy; simp only [List.mem_singleton] at hy; subst hy; exact hsc, by simp⟩
   | alt os => simp [isSingleCodepoint] at hs
@@ -353,9 +351,9 @@ theorem removeCommon_spec (s : Side) (a b : Expr) (ha : WF a) (hb : WF b) :
 theorem removeCommon_rep_left (s : Side) (a b : Expr) (h : a.isRep = true) : removeCommon s a b = (a, b, none) := by
   simp [removeCommon, findCommon_rep_left s a b h]
 
-theorem wf_unionMid (cap : Bool) (e1 e2 : Expr) (h1 : WF e1) (h2 : WF e2)
+theorem wf_unionMid (cap esc : Bool) (e1 e2 : Expr) (h1 : WF e1) (h2 : WF e2)
     (hc1 : e1.isEmpty = true → e2.isRep = false) (hc2 : e2.isEmpty = true → e1.isRep = false) :
-    WF (unionMid (cfgPlain cap) e1 e2) := by
+    WF (unionMid (cfgPlain cap esc) e1 e2) := by
   have two : ∀ x y : Expr, WF x → WF y → WF (newAlternation [x, y]) := by
     intro x y hx hy
     apply wf_newAlternation _ _ (by simp)
@@ -376,8 +374,8 @@ theorem wf_unionMid (cap : Bool) (e1 e2 : Expr) (h1 : WF e1) (h2 : WF e2)
         · split
           · rename_i hs
             simp only [Bool.and_eq_true] at hs
-            obtain ⟨a1, a2, _⟩ := extractCharSet_single cap e1 h1 hs.1
-            obtain ⟨b1, b2, b3⟩ := extractCharSet_single cap e2 h2 hs.2
+            obtain ⟨a1, a2, _⟩ := extractCharSet_single cap esc e1 h1 hs.1
+            obtain ⟨b1, b2, b3⟩ := extractCharSet_single cap esc e2 h2 hs.2
             exact wf_newCharacterClass _ _ a2 b2 b3 (Or.inl a1)
           · exact two e1 e2 h1 h2
 
@@ -394,8 +392,8 @@ theorem solid_unionMid (cfg : Config) (e1 e2 : Expr) (h1 : Solid e1) (h2 : Solid
       · exact ⟨rfl, rfl⟩
       · exact solid_newAlternation _
 
-theorem unionCore_spec (cap : Bool) (a b : Expr) (ha : WF a) (hb : WF b) (hbs : Solid b) :
-    WF (unionCore (cfgPlain cap) a b) ∧ (Solid a → Solid (unionCore (cfgPlain cap) a b)) := by
+theorem unionCore_spec (cap esc : Bool) (a b : Expr) (ha : WF a) (hb : WF b) (hbs : Solid b) :
+    WF (unionCore (cfgPlain cap esc) a b) ∧ (Solid a → Solid (unionCore (cfgPlain cap esc) a b)) := by
   unfold unionCore
   simp only []
   obtain ⟨p1, p2, p3, p4, p5, p6⟩ := removeCommon_spec .pre a b ha hb
@@ -417,8 +415,8 @@ theorem unionCore_spec (cap : Bool) (a b : Expr) (ha : WF a) (hb : WF b) (hbs : 
       rw [e2] at he
       have := hbs.2
       simp_all
-  have hm := wf_unionMid cap r2.1 r2.2.1 q1 q2 hc1 hc2
-  have hw : WF (wrapPre r1.2.2 (unionMid (cfgPlain cap) r2.1 r2.2.1)) := by
+  have hm := wf_unionMid cap esc r2.1 r2.2.1 q1 q2 hc1 hc2
+  have hw : WF (wrapPre r1.2.2 (unionMid (cfgPlain cap esc) r2.1 r2.2.1)) := by
     cases hpre : r1.2.2 with
     | none => simpa [wrapPre] using hm
     | some p => exact ⟨p3 p hpre, hm⟩
@@ -442,8 +440,8 @@ theorem unionCore_spec (cap : Bool) (a b : Expr) (ha : WF a) (hb : WF b) (hbs : 
         rw [e2]
         exact solid_unionMid _ a b has hbs
 
-theorem owf_union (cap : Bool) (a b : Option Expr) (ha : OWF a) (hb : OWF b) (hbs : OSolid b) :
-    OWF (union (cfgPlain cap) a b) ∧ (OSolid a → OSolid (union (cfgPlain cap) a b)) := by
+theorem owf_union (cap esc : Bool) (a b : Option Expr) (ha : OWF a) (hb : OWF b) (hbs : OSolid b) :
+    OWF (union (cfgPlain cap esc) a b) ∧ (OSolid a → OSolid (union (cfgPlain cap esc) a b)) := by
   cases a with
   | none => cases b <;> simp_all [union, OWF, OSolid]
   | some e1 =>
@@ -453,7 +451,7 @@ theorem owf_union (cap : Bool) (a b : Option Expr) (ha : OWF a) (hb : OWF b) (hb
       simp only [union]
       split
       · exact ⟨ha, fun h => h⟩
-      · exact unionCore_spec cap e1 e2 ha hb hbs
+      · exact unionCore_spec cap esc e1 e2 ha hb hbs
 
 end Expr
 end Grexv
